@@ -562,3 +562,6 @@ PROPS["C14"]["rule"] += (" A further family is runaway recursion (direct, mutual
                          "shipped 60 s and with timeouts disabled: it must end as an error on its node within 20 s - stopped by the "
                          "timeout or by an error of its own - and the process must survive (the test binary caps the Go stack at "
                          "64 MB so that an overflow shows in seconds).")
+PROPS["C12"]["rule"] += (" A third of the workloads run with the cron state hooks installed (removing what is not there may then report "
+                         "not-found, which the sequential model accepts as a no-op), and in a third the rules' actions also write a fact "
+                         "of their own (Env.AddFact) whose stored and in-memory values must agree at the end.")
